@@ -17,9 +17,9 @@ ENCODED = ["mchap.application.baseclass.program.sumarise_vcf_record", "mchap.app
 STUBS = ["samplers replaced as in C13 (assemble) and C16 (call): posterior / trace chosen by the solver from a finite grid", "stub locus with real Locus.format_haplotypes"]
 ASSUMES = ["summary group: GT entries of two samples are symbolic integers (solver-concretised at the array index), per-sample ACP/AOP/DP/RCOUNT symbolic reals/ints; identities discharged by z3",
            "line group: the formatted text is produced by numpy/str code (C boundary); the record space is solver-enumerated and every line is re-parsed by an independent parser"]
-BOUNDS = {"quick": "summary: 3 samples (ploidy 2,3,4; the tetraploid fixed), <= 2 ALT; lines: assemble scenarios of C13 (4) x 3 thresholds x dominant-genotype choices x 4 --report sets; call records with 2-3 alleles and every zero-prior/mask pattern",
-          "thorough": "summary with 3 ALT; all 8 assemble scenarios"}
-OUTSIDE = "decimal rendering of doubles (numeric fields are compared after re-parsing with a 1e-3 tolerance only); re-parsing by pysam/htslib; call-exact and call-pedigree lines (same summarise/format code, their FORMAT arrays are checked in C03 and C16)"
+BOUNDS = {"quick": "call-exact lines (real exact code, 2 samples of ploidy 2 and 3, reads from a 4-row grid, every zero-prior / mask pattern, 4 --report sets) and call-pedigree lines (3 samples, trace chosen by the solver, PEDERR); vcfstr: k/1000 and k for k in [-1200,1200]; summary: 3 samples (ploidy 2,3,4; the tetraploid fixed), <= 2 ALT; lines: assemble scenarios of C13 (4) x 3 thresholds x dominant-genotype choices x 4 --report sets; call records with 2-3 alleles and every zero-prior/mask pattern",
+          "thorough": "summary with 3 ALT; all 8 assemble scenarios; vcfstr in steps of 200"}
+OUTSIDE = "decimal rendering is covered by realisation only: vcfstr on every 3-decimal value of [-1.2, 1.2] and x1000 (alone, in arrays, next to nan, float32, lists) and the numeric read-back of every value of the enumerated records; magnitudes beyond that range and exponent notation are outside; re-parsing by pysam/htslib"
 TASKS_PER_CHILD = 2
 LEVEL_TEXT = ("Symbolic identities for the record summary (z3), plus solver-driven enumeration of formatted records re-parsed by an independent parser (string code realises symbolic values). Partly applicable: see OUTSIDE.")
 REPORTS = [(), ("AFP", "ACP", "AOP"), ("GP",), ("INFO/AFP", "INFO/ACP", "INFO/AOP", "AOPSUM", "AFPRIOR", "SNVDP", "GP", "AFP")]
